@@ -5,9 +5,9 @@
    double-bond reference atoms) is universally quantified. *)
 From Coq Require Import ZArith List String Bool.
 From Model Require Import PyBase Graph PeriodicTable Stereo Rdkit RdkitRegistry.
-From Model Require Import RdkitApi RdkitConfApi RdkitBonds.
+From Model Require Import RdkitApi RdkitConfApi RdkitBonds RdkitRings.
 From Gen Require Import Elements RdkitTables StereoTables RdkitConsts RdkitBody RdkitSign RdkitConf RdkitRegistryBody.
-From Proofs Require Import StereoProofs RdkitProofs RdkitExt RdkitExt2 RdkitExt3 RdkitExt4 RdkitExt5 RdkitExt6 RdkitBodyTie RdkitSignTie RdkitConfTie RdkitRegistryTie RdkitInverted RdkitBondsOf RdkitBodyTie2.
+From Proofs Require Import StereoProofs RdkitProofs RdkitExt RdkitExt2 RdkitExt3 RdkitExt4 RdkitExt5 RdkitExt6 RdkitBodyTie RdkitSignTie RdkitConfTie RdkitRegistryTie RdkitInverted RdkitBondsOf RdkitBodyTie2 RdkitRingsTie.
 Import ListNotations.
 Open Scope string_scope.
 Open Scope Z_scope.
@@ -1062,3 +1062,24 @@ Theorem C20_translated_from_bond_labels : forall isH ct rbonds,
   from_bond_labels isH ct rbonds = mapM (from_bond_label_g isH ct) rbonds.
 Proof. exact tie_from_bond_labels. Qed.
 Print Assumptions C20_translated_from_bond_labels.
+
+(* ---- round 5: which double bonds are "ring double bonds" (MoleculeStereo.ring_cumulenes_terminals) ----
+   Only the double bonds selected by this test are subject to the small-ring rule (C20_ring_double_bond_cutoff).  The test is translated
+   from the source on every run (g_ring_terminal, tools/gen_rdkit_registry.py); it selects a bond exactly when both ends are ring atoms
+   that lie in a COMMON ring: a double bond joining two different rings keeps its configuration whatever the ring sizes. *)
+Theorem C20_translated_ring_terminal : forall ar n m, g_ring_terminal ar n m = ring_terminal ar n m.
+Proof. exact tie_ring_terminal. Qed.
+Print Assumptions C20_translated_ring_terminal.
+
+Theorem C20_ring_terminal_iff_common_ring : forall ar n m,
+  ring_terminal ar n m = true <->
+  In n (keys ar) /\ In m (keys ar) /\ exists r, In r (ar_get ar n) /\ In r (ar_get ar m).
+Proof. exact ring_terminal_common_ring. Qed.
+Print Assumptions C20_ring_terminal_iff_common_ring.
+
+Theorem C20_ring_terminal_examples :
+  ring_terminal [(2, [[1; 2; 3; 4; 5]]); (6, [[6; 7; 8; 9; 10]])] 2 6 = false /\
+  ring_terminal [(2, [[1; 2; 3; 4; 5; 6; 7; 8]]); (3, [[1; 2; 3; 4; 5; 6; 7; 8]])] 2 3 = true /\
+  ring_terminal [(2, [[1; 2; 3; 4; 5]])] 2 6 = false.
+Proof. exact ring_terminal_examples. Qed.
+Print Assumptions C20_ring_terminal_examples.
